@@ -409,8 +409,60 @@ def check(ctx):
         calls = [n for n, cfid, nm in h.calls() if nm == POS + '::do_move']
         ok = bool(calls) and all(strip_casts(kids(c)[1]).get('callee', {}).get('n') == POS + '::parse_uci' for c in calls)
         ctx.ob('C02.R5.replay', short(hname), ok, '`position ... moves`/`moves` replay every token through parse_uci + do_move', site=h.loc())
+    _replay_all(ctx, p)
     ctx.assume('A-EP, A-PROMO as in C03; the moved piece belongs to the side to move (legal move)')
     ctx.note('not decided: the printed FEN of the result for every (position, move) pair')
+
+
+def _replay_all(ctx, p):
+    """position/moves commands: one turn of the replay loop, per valuation of what it branches on: every word that is not the
+    keyword `moves` is played (parse_uci + do_move) and the loop goes on; the only game states in which a listed move may be
+    left out are those where no legal move exists (checkmate, stalemate)."""
+    import itertools
+    from rules.cases import effects_under, OpenAtom
+    from rules.norm import Norm
+    TERMINAL = ('is_checkmate()', 'is_stalemate()')
+    STATE = TERMINAL + ('is_draw()', 'is_repeated()', 'threefold_repetition()', 'rule50()', 'enough_material()', 'is_in_check(')
+    for hname in ('engine::Uci::position_command', 'engine::Uci::moves_command'):
+        h = p.fn(hname)
+        loops = [n for n in h.all_nodes() if n['k'] in ('WhileStmt', 'ForStmt') and
+                 any((x.get('callee') or {}).get('n') == POS + '::do_move' for x in walk(n))]
+        if len(loops) != 1:
+            raise AnalysisBroken('C02: %s replays moves in %d loops, the rule knows the form with one' % (short(hname), len(loops)))
+        body = kids(loops[0])[-1]
+        keep = tuple(q['name'] for q in h.params) + ('token', 'position')
+        nm = Norm(h, keep=keep)
+        opened = []
+        bad = None
+        n_rows = 0
+        while True:
+            try:
+                rows = []
+                for is_kw in (True, False):
+                    for combo in itertools.product((0, 1), repeat=len(opened)):
+                        val = {('eq', '"moves"', 'token'): is_kw}
+                        val.update(dict(zip(opened, combo)))
+                        rows.append((is_kw, dict(zip(opened, combo)), effects_under(h, [body], val, keep=keep, loops='mark', open_atoms=True)))
+                break
+            except OpenAtom as oa:
+                if oa.what in opened or len(opened) >= 6 or not any(s_ in oa.what for s_ in STATE):
+                    raise AnalysisBroken('C02: %s: the replay loop branches on `%s`, which the rule does not know' % (short(hname), oa.what))
+                opened.append(oa.what)
+        for is_kw, st_, eff in rows:
+            n_rows += 1
+            if is_kw:
+                continue
+            if any(v_ and any(t_ in k_ for t_ in TERMINAL) for k_, v_ in st_.items()):
+                continue            # no legal move exists in such a position: nothing that follows in the list is a legal move
+            plays = [e_ for e_ in eff if re.fullmatch(r'position\.do_move\(position\.parse_uci\(token\)\)', e_.replace(' ', ''))]
+            other = [e_ for e_ in eff if e_ not in plays and not re.fullmatch(r'\(\w+=[\w.()]+\)', e_)]
+            if len(plays) != 1 or other:
+                bad = bad or 'with %s a listed move is not played and the loop does %s' % (
+                    ', '.join('%s=%s' % kv for kv in sorted(st_.items())) or 'a word other than `moves`', eff)
+        ctx.ob('C02.R5.replay-every-move', short(hname), bad is None,
+               'every word of the move list is played through parse_uci + do_move and the loop goes on; only checkmate/stalemate (no '
+               'legal move exists) may end the replay early (%d valuations of one turn)%s' % (n_rows, '' if bad is None else ' — ' + bad),
+               site=h.loc(loops[0]))
 
 
 def _same_effect(got, want):
